@@ -21,7 +21,7 @@ func ruleC07(c *Ctx) {
 	}
 	c.Undec = []string{"statistical proportionality over many draws (weightedrand and math/rand internals; only the weights handed over are decided)", "global rand.Seed side effects on other users of math/rand"}
 	c.Trusted = []string{"github.com/mroth/weightedrand: Pick chooses among the given Choices in proportion to Weight", "C06 (triplets have 3 letters and translate back)"}
-	c.floor("TERM-CHOOSER", 3)
+	c.floor("TERM-CHOOSER", 4)
 	c.floor("TERM-OPT", 2)
 	c.floor("GUARD-MISS", 1)
 	c.floor("TABLE-ALPHABET", 1)
@@ -35,172 +35,414 @@ func ruleC07(c *Ctx) {
 	}
 	c.useFn(opt)
 	c.useFn(ch)
-	// ---- chooser
+	checkChooser(c, ch)
+	checkOptimize(c, opt)
+	checkProteinAlphabet(c)
+}
+
+// relHolds evaluates "a op b" on integers; ok=false for operators outside == != < <=.
+func relHolds(op string, a, b int64) (bool, bool) {
+	switch op {
+	case "==":
+		return a == b, true
+	case "!=":
+		return a != b, true
+	case "<":
+		return a < b, true
+	case "<=":
+		return a <= b, true
+	}
+	return false, false
+}
+
+// sumAddend: if t is a running total (a cyclic phi of tb.F fed by one "+= x" in a loop, from 0), the term x.
+// A total computed by a module helper is followed into the helper, with its parameters substituted.
+func sumAddend(tb *TermBuilder, t *Term) (*Term, bool) {
+	t = stripConv(t)
+	if t == nil || t.V == nil {
+		return nil, false
+	}
+	if ph, ok := t.V.(*ssa.Phi); ok && ph.Parent() == tb.F {
+		cs := additive(tb, ph)
+		if len(cs) != 1 || cs[0].Neg || !cs[0].InLoop {
+			return nil, false
+		}
+		return cs[0].T, true
+	}
+	if call, ok := t.V.(*ssa.Call); ok {
+		g := call.Call.StaticCallee()
+		if g == nil || !inModule(g) || g.Blocks == nil {
+			return nil, false
+		}
+		rets := returnsOf(g)
+		if len(rets) != 1 || len(rets[0].Results) != 1 {
+			return nil, false
+		}
+		gtb := newTB(g)
+		ad, ok := sumAddend(gtb, gtb.T(rets[0].Results[0]))
+		if !ok {
+			return nil, false
+		}
+		var args []*Term
+		for _, a := range callArgs(call) {
+			args = append(args, tb.T(a))
+		}
+		return substParams(ad, args), true
+	}
+	return nil, false
+}
+
+func checkChooser(c *Ctx, ch *ssa.Function) {
 	tb := newTB(ch)
-	cod := "field[Codons](each(field[AminoAcids](param[0])))"
+	aa := "each(field[AminoAcids](param[0]))"
+	cod := "field[Codons](" + aa + ")"
 	wgt := "field[Weight](each(" + cod + "))"
 	trp := "field[Triplet](each(" + cod + "))"
 	var upd *ssa.MapUpdate
 	nUpd := 0
 	eachInstr(ch, func(i ssa.Instruction) {
-		if mu, ok := i.(*ssa.MapUpdate); ok {
+		if mu, ok := i.(*ssa.MapUpdate); ok && tb.T(mu.Value).isCall("github.com/mroth/weightedrand.NewChooser") {
 			upd = mu
 			nUpd++
 		}
 	})
 	if nUpd != 1 {
-		c.bad("TERM-CHOOSER", "chooser map", ch.Pos(), fmt.Sprintf("%d stores into the chooser map, want 1", nUpd))
+		c.undecided("TERM-CHOOSER", "chooser map", ch.Pos(), fmt.Sprintf("%d stores of a weightedrand chooser into a map, the model needs 1", nUpd))
 		return
 	}
-	keyOK := tb.T(upd.Key).String() == "field[Letter](each(field[AminoAcids](param[0])))"
+	c.cmpTerm("TERM-CHOOSER", "stored under aminoAcid.Letter", upd.Pos(), tb.T(upd.Key), "field[Letter]("+aa+")", "codonChooser[aminoAcid.Letter] = weightedrand.NewChooser(choices...)", "the chooser is stored under another key than its amino acid's letter", trp, wgt)
 	val := tb.T(upd.Value)
-	okVal := val.isCall("github.com/mroth/weightedrand.NewChooser")
-	c.check(keyOK && okVal, "TERM-CHOOSER", "stored under aminoAcid.Letter", upd.Pos(), "codonChooser[aminoAcid.Letter] = weightedrand.NewChooser(choices...)", "the chooser is stored under "+short(tb.T(upd.Key).String())+" / built by "+short(val.Name))
-	if okVal {
-		sites := topAppendSites(val.Args[0])
-		good := len(sites) == 1
-		why := fmt.Sprintf("%d places append a Choice, want 1", len(sites))
-		if good {
-			e := sites[0].Elem
-			it, wt := partialOf(e, "Item"), partialOf(e, "Weight")
-			okElem := it != nil && wt != nil && it.String() == trp && wt.String() == "conv[uint]("+wgt+")"
-			// threshold condition
-			hdr := enclosingLoopHeader(sites[0].At.Block())
-			var pc *Cond
-			if hdr != nil {
-				pc = pathCond(tb, hdr.Succs[0], sites[0].At.Block())
-			}
-			okCond := false
-			condS := "?"
-			if pc != nil && pc.Op == "atom" {
-				condS = pc.String()
-				a := pc.Atom
-				if a.isBin("<") && a.Args[0].isConst("0.1") && a.Args[1].isBin("/") {
-					num, den := a.Args[1].Args[0], a.Args[1].Args[1]
-					if num.String() == "conv[float64]("+wgt+")" && den.Op == "conv" && den.Name == "float64" {
-						s, _, ok := sumOf(tb, den.Args[0].V)
-						okCond = ok && s == wgt
-					}
-				}
-			} else if pc != nil {
-				condS = pc.String()
-			}
-			good = okElem && okCond
-			why = fmt.Sprintf("Choice{Item: %s, Weight: %s} offered under %s; want {Triplet, uint(Weight)} under float(Weight)/float(sum of the amino acid's weights) > 0.10", short(fmt.Sprint(it)), short(fmt.Sprint(wt)), short(condS))
+	sites := topAppendSites(val.Args[0])
+	if len(sites) != 1 {
+		c.undecided("TERM-CHOOSER", "eligible iff share > 0.10", upd.Pos(), fmt.Sprintf("%d places append a Choice, the model needs 1", len(sites)))
+		return
+	}
+	site := sites[0]
+	it, wt := partialOf(site.Elem, "Item"), partialOf(site.Elem, "Weight")
+	c.cmpTerm("TERM-CHOOSER", "Choice.Item = codon.Triplet", site.At.Pos(), it, trp, "the item offered is the codon's triplet", "the item offered", wgt)
+	c.cmpTerm("TERM-CHOOSER", "Choice.Weight = uint(codon.Weight)", site.At.Pos(), wt, "conv[uint]("+wgt+")", "weights are handed to the chooser unchanged", "the weight handed to the chooser", trp)
+	// threshold
+	entry := loopBodyEntry(site.At.Block())
+	st, why := unknown, "the Choice is not appended in a loop over the codons"
+	if entry != nil {
+		pc := pathCond(tb, entry, site.At.Block())
+		why = "no share test found; the Choice is appended under " + short(pc.String())
+		if pc.Op == "true" {
+			st, why = broken, "every codon is offered to the chooser, whatever its share (zero-weight and rare codons included)"
 		}
-		c.check(good, "TERM-CHOOSER", "eligible iff share > 0.10; Item=Triplet, Weight=uint(Weight)", upd.Pos(), "strict >, constant 0.10, share over the same amino acid's codons, weights handed over unchanged", why)
-		// amino acids with no eligible codon are skipped: the map update is guarded
-		hdr := enclosingLoopHeader(upd.Block())
-		guarded := false
-		if hdr != nil && len(sites) == 1 {
-			pc := pathCond(tb, hdr.Succs[0], upd.Block())
-			for _, a := range pc.atoms() {
-				if a.Disj {
+		for _, at := range pc.atoms() {
+			a := at.Atom
+			if at.Disj || !(a.isBin("<") || a.isBin("<=")) {
+				continue
+			}
+			// integer form: total < K*weight  (share > 1/K)
+			if mul := a.Args[1]; mul.isBin("*") && len(mul.Args) == 2 {
+				kk, isC := mul.Args[0].constInt()
+				wv := mul.Args[1]
+				if !isC {
+					kk, isC = mul.Args[1].constInt()
+					wv = mul.Args[0]
+				}
+				if ad, okSum := sumAddend(tb, a.Args[0]); isC && okSum && ad.String() == wgt && stripConv(wv).String() == wgt {
+					switch {
+					case at.Neg:
+						st, why = broken, "a codon is offered when its share is NOT above the threshold (test inverted)"
+					case a.isBin("<="):
+						st, why = broken, fmt.Sprintf("a codon is eligible when total <= %d*weight, i.e. share >= 1/%d; the property requires strictly above 10%%", kk, kk)
+					case kk != 10:
+						st, why = broken, fmt.Sprintf("eligibility threshold is 1/%d, want 0.10", kk)
+					default:
+						st = holds
+					}
 					continue
 				}
-				// the guard must depend on how many codons were eligible: a counter bumped at the append site, or the list itself
-				a.Atom.walk(func(x *Term) {
-					if ph, ok := x.V.(*ssa.Phi); ok && x.Op == "phi" {
-						for _, k := range additive(tb, ph) {
-							if k.At != nil && k.At.Block() == sites[0].At.Block() && k.T.isConst("1") {
-								guarded = true
-							}
-						}
-					}
-					if x.isCall("builtin:len") && len(topAppendSites(x.Args[0])) == 1 && topAppendSites(x.Args[0])[0].At == sites[0].At {
-						guarded = true
-					}
-				})
+			}
+			// const < share   (share > const);   share < const is the wrong way round
+			k, isK := a.Args[0].constFloat()
+			share := a.Args[1]
+			flipped := false
+			if !isK {
+				k, isK = a.Args[1].constFloat()
+				share, flipped = a.Args[0], true
+			}
+			if !isK || !stripConv(share).isBin("/") {
+				continue
+			}
+			share = stripConv(share)
+			num, den := share.Args[0], share.Args[1]
+			ad, okSum := sumAddend(tb, den)
+			switch {
+			case flipped != at.Neg && a.isBin("<") && flipped:
+				// !(share < K)  == share >= K
+				st, why = broken, "a codon is eligible when its share is >= the threshold; the property requires strictly above 10%"
+			case flipped != at.Neg:
+				st, why = broken, "a codon is offered when its share is NOT above the threshold (test inverted)"
+			case a.isBin("<=") && !flipped:
+				st, why = broken, "a codon is eligible when its share is >= the threshold; the property requires strictly above 10%"
+			case k != 0.1:
+				st, why = broken, fmt.Sprintf("eligibility threshold is %v, want 0.10", k)
+			case num.String() != "conv[float64]("+wgt+")":
+				st = stateOf(false, vocabOf(wgt), num)
+				if st == broken && !localDiff(num, "conv[float64]("+wgt+")") {
+					st = unknown
+				}
+				why = "the share's numerator is " + short(num.String()) + ", want the codon's own weight"
+			case !okSum:
+				st, why = unknown, "the share's denominator "+short(den.String())+" is not a recognised running total"
+			case ad.String() != wgt:
+				st = stateOf(false, vocabOf(wgt), ad)
+				if st == broken && !localDiff(ad, wgt) {
+					st = unknown
+				}
+				why = "the share's denominator sums " + short(ad.String()) + ", want the weights of the same amino acid's codons"
+			default:
+				st = holds
 			}
 		}
-		c.check(guarded, "TERM-CHOOSER", "no chooser without an eligible codon", upd.Pos(), "the chooser is only stored when at least one codon is eligible, so Optimize sees a miss instead of an empty chooser", "a chooser is stored even when no codon is eligible (all weights zero or all shares <= 10%): Pick on it panics in rand.Intn(0)")
 	}
-	// ---- Optimize
-	otb := newTB(opt)
-	sr := successReturn(otb, opt, 1)
-	if sr == nil {
-		c.bad("TERM-OPT", "single success return", opt.Pos(), "expected exactly one (dna, nil) return")
-		return
+	c.judge(st, "TERM-CHOOSER", "eligible iff share > 0.10", site.At.Pos(), "strict >, constant 0.10, share = own weight / sum over the same amino acid's codons", why)
+	// the chooser map is a function of the table alone
+	if sp := pkgOf(ch); sp != nil {
+		var fs []*ssa.Function
+		for _, f := range c.W.moduleFuncs() {
+			if pkgOf(f) == sp {
+				fs = append(fs, f)
+			}
+		}
+		o := returnOrigins(fs)[ch]
+		c.check(o&oGlobal == 0, "TERM-CHOOSER", "chooser map built from the table alone", ch.Pos(), "the chooser map returned is freshly built ("+o.String()+")", "the chooser map returned may come from package state (origin "+o.String()+"): a cached chooser outlives a re-weighting of the table it was built from, so Optimize keeps using the old weights")
 	}
-	res := otb.T(sr.Results[0])
-	okRes := res.isCall("(*strings.Builder).String")
+	// amino acids with no eligible codon get no chooser: the store is guarded by the number of eligible codons
+	entry = loopBodyEntry(upd.Block())
+	st, why = unknown, "the chooser is not stored in a loop over the amino acids"
+	if entry != nil {
+		pc := pathCond(tb, entry, upd.Block())
+		st, why = unknown, "the chooser is stored under "+short(pc.String())
+		if pc.Op == "true" {
+			st, why = broken, "a chooser is stored even when no codon is eligible (all weights zero or all shares <= 10%): Pick on it panics in rand.Intn(0)"
+		}
+		// initial length of the choices list
+		var initLen *Term
+		if app, ok := site.At.(*ssa.Call); ok {
+			seen := map[ssa.Value]bool{}
+			var walk func(v ssa.Value)
+			walk = func(v ssa.Value) {
+				if seen[v] {
+					return
+				}
+				seen[v] = true
+				switch x := v.(type) {
+				case *ssa.Phi:
+					for _, e := range x.Edges {
+						walk(e)
+					}
+				case *ssa.Call:
+					if calleeName(x) == "builtin:append" {
+						walk(x.Call.Args[0])
+					}
+				case *ssa.MakeSlice:
+					initLen = tb.T(x.Len)
+				case *ssa.Const:
+					if x.Value == nil {
+						initLen = &Term{Op: "const", Name: "0"}
+					}
+				}
+			}
+			walk(app.Call.Args[0])
+		}
+		for _, at := range pc.atoms() {
+			a := at.Atom
+			if at.Disj || a.Op != "binop" || len(a.Args) != 2 {
+				continue
+			}
+			for k := 0; k < 2; k++ {
+				x, other := a.Args[k], a.Args[1-k]
+				// (1) a counter bumped by one at the append site, compared with a constant
+				isCounter := false
+				if ph, ok := x.V.(*ssa.Phi); ok && x.Op == "phi" {
+					cs := additive(tb, ph)
+					isCounter = len(cs) == 1 && cs[0].At != nil && cs[0].At.Block() == site.At.Block() && cs[0].T.isConst("1") && !cs[0].Neg
+				}
+				// (2) the length of the choices list
+				isLen := x.isCall("builtin:len") && len(topAppendSites(x.Args[0])) == 1 && topAppendSites(x.Args[0])[0].At == site.At
+				if !isCounter && !isLen {
+					continue
+				}
+				base := int64(0)
+				if isLen {
+					if initLen == nil {
+						st, why = unknown, "initial length of the choices list not found"
+						continue
+					}
+					if other.String() != initLen.String() {
+						if _, isC := other.constInt(); isC && initLen.Op != "const" {
+							st, why = broken, "the guard compares len(choices) with "+other.Name+", but the list starts with "+short(initLen.String())+" zero entries, so its length never tells whether a codon is eligible: an amino acid without eligible codons still gets a chooser (of zero total weight; Pick panics)"
+						} else {
+							st, why = unknown, "len(choices) compared with "+short(other.String())+"; the list starts at length "+short(initLen.String())
+						}
+						continue
+					}
+					base = 5
+				} else if n, isC := other.constInt(); isC {
+					base = n
+					if n != 0 {
+						st, why = unknown, fmt.Sprintf("eligible-codon counter compared with %d", n)
+						continue
+					}
+				} else {
+					continue
+				}
+				// the store must happen for count = base+1 and not for count = base
+				ev := func(cnt int64) (bool, bool) {
+					l, r := cnt, base
+					if k == 1 {
+						l, r = base, cnt
+					}
+					v, ok := relHolds(a.Name, l, r)
+					return v != at.Neg, ok
+				}
+				at0, ok0 := ev(base)
+				at1, ok1 := ev(base + 1)
+				switch {
+				case !ok0 || !ok1:
+					st, why = unknown, "guard operator "+a.Name+" not modelled"
+				case !at0 && at1:
+					st = holds
+				default:
+					st, why = broken, fmt.Sprintf("the chooser is stored when no codon is eligible: %v, when one is: %v (want false, true)", at0, at1)
+				}
+			}
+		}
+	}
+	c.judge(st, "TERM-CHOOSER", "no chooser without an eligible codon", upd.Pos(), "the chooser is only stored when at least one codon is eligible, so Optimize sees a miss instead of an empty chooser", why)
+}
+
+func checkOptimize(c *Ctx, opt *ssa.Function) {
+	chName := "(poly/transform/codon.Table).chooser"
+	otb := newDeepTB(opt, chName)
+	var succ []resultAlt
+	for _, a := range resultAlts(otb, opt, 0) {
+		if len(a.Ret.Results) == 2 {
+			if e := otb.T(a.Ret.Results[1]); e.Op == "const" && strings.HasPrefix(e.Name, "nil:") {
+				succ = append(succ, a)
+			}
+		}
+	}
 	var picks []ssa.CallInstruction
-	if okRes {
+	if len(succ) != 1 || !succ[0].T.isCall("(*strings.Builder).String") {
+		c.undecided("TERM-OPT", "per residue: Pick() of chooser[string(residue)] appended in order", opt.Pos(), fmt.Sprintf("%d success returns / result not a strings.Builder's content", len(succ)))
+	} else {
+		res := succ[0].T
 		ws := bufWrites(opt, otb, res.Args[0].String())
 		residue := "conv[string](extract[2](next(range(param[0]))))"
-		chooserT := "call[(poly/transform/codon.Table).chooser](param[1])"
-		good := len(ws) == 1
-		why := fmt.Sprintf("%d writes feed the result, want 1 per residue", len(ws))
-		if good {
+		chooserT := "call[" + chName + "](param[1])"
+		if len(ws) != 1 {
+			c.undecided("TERM-OPT", "per residue: Pick() of chooser[string(residue)] appended in order", opt.Pos(), fmt.Sprintf("%d writes feed the result, the model needs 1", len(ws)))
+		} else {
 			a := ws[0].arg
-			// typeassert[string](call Pick(X)) where X = lookup or extract[0](lookup,ok)
+			st, why := unknown, "the written value is "+short(a.String())+"; the model needs Pick().(string)"
 			if a.Op == "typeassert" && a.Args[0].isCall("(github.com/mroth/weightedrand.Chooser).Pick") {
 				x := a.Args[0].Args[0]
 				lk := x
 				if x.Op == "extract" && x.Name == "0" {
 					lk = x.Args[0]
 				}
-				if !(lk.Op == "lookup" && lk.Args[0].String() == chooserT && lk.Args[1].String() == residue) {
-					good = false
-					why = "picked from " + short(x.String()) + "; want chooser(codonTable)[string(residue)]"
+				switch {
+				case lk.Op != "lookup":
+					why = "picked from " + short(x.String())
+				case lk.Args[0].String() != chooserT:
+					st = stateOf(false, vocabOf(chooserT), lk.Args[0])
+					why = "the chooser map is " + short(lk.Args[0].String()) + "; want the one built from the table argument"
+				case lk.Args[1].String() != residue:
+					st = stateOf(false, vocabOf(residue), lk.Args[1])
+					if st == broken && !localDiff(lk.Args[1], residue) {
+						st = unknown
+					}
+					why = "the chooser is looked up under " + short(lk.Args[1].String()) + "; want string(residue)"
+				default:
+					st = holds
 				}
-			} else {
-				good = false
-				why = "the written value is " + short(a.String()) + "; want Pick().(string)"
 			}
-			// write happens once per residue: in the range body, not in an inner loop
-			hdr := enclosingLoopHeader(ws[0].call.Block())
-			if hdr == nil || !strings.HasPrefix(otb.T(hdr.Instrs[len(hdr.Instrs)-1].(*ssa.If).Cond).String(), "extract[0](next(range(param[0])))") {
-				good = false
-				why = "the write is not executed once per input residue"
+			if st == holds {
+				// once per residue: directly in the loop over the protein, unconditionally but for the miss test
+				hdr := enclosingLoopHeader(ws[0].call.Block())
+				if hdr == nil {
+					st, why = unknown, "the write is not in a loop"
+				} else if ifi, ok := hdr.Instrs[len(hdr.Instrs)-1].(*ssa.If); !ok || !strings.HasPrefix(otb.T(ifi.Cond).String(), "extract[0](next(range(param[0])))") {
+					st, why = unknown, "the write is not in the loop over the input's residues"
+				}
 			}
+			c.judge(st, "TERM-OPT", "per residue: Pick() of chooser[string(residue)] appended in order", ws[0].call.Pos(), "one codon per residue, in input order, from the chooser stored under that residue", why)
 		}
-		c.check(good, "TERM-OPT", "per residue: Pick() of chooser[string(residue)] appended in order", opt.Pos(), "one codon per residue, in input order, from the chooser stored under that residue", why)
 		picks = callsIn(opt, "(github.com/mroth/weightedrand.Chooser).Pick")
-	} else {
-		c.bad("TERM-OPT", "result", sr.Pos(), "result is not the accumulated builder string")
 	}
-	c.check(len(callsIn(opt, "(poly/transform/codon.Table).chooser")) == 1, "TERM-OPT", "chooser built once from the given table", opt.Pos(), "codonTable.chooser() called once", "the chooser is not built exactly once from the table argument")
+	nCh := len(callsIn(opt, chName))
+	c.checkShape(nCh == 1, "TERM-OPT", "chooser built once from the given table", opt.Pos(), "codonTable.chooser() called once", fmt.Sprintf("%d calls of the chooser builder in Optimize", nCh))
 	// GUARD-MISS
 	for _, p := range picks {
 		recv := otb.T(p.Common().Args[0])
 		pc := pathCond(otb, opt.Blocks[0], p.Block())
-		okMiss := false
-		if recv.Op == "extract" && recv.Name == "0" && recv.Args[0].Op == "lookup" && recv.Args[0].Name == ",ok" {
+		st, why := unknown, "Pick is called on "+short(recv.String())
+		switch {
+		case recv.Op == "lookup" && recv.Name == "":
+			st, why = broken, "the chooser map is indexed with a caller-controlled residue without a comma-ok test: an unencodable residue (lower case, a letter absent from the table, an amino acid with no usable codon) yields a zero Chooser and Pick panics in rand.Intn(0)"
+		case recv.Op == "extract" && recv.Name == "0" && recv.Args[0].Op == "lookup" && recv.Args[0].Name == ",ok":
 			okAtom := "extract[1](" + recv.Args[0].String() + ")"
-			if pc.implies(okAtom, false) {
-				// miss branch returns an error
-				for _, r := range returnsOf(opt) {
-					rp := pathCond(otb, opt.Blocks[0], r.Block())
-					if rp.implies(okAtom, true) {
-						e := otb.T(r.Results[1])
-						if !(e.Op == "const" && strings.HasPrefix(e.Name, "nil:")) {
-							okMiss = true
-						}
+			if !pc.implies(okAtom, false) {
+				st, why = broken, "the comma-ok result of the chooser lookup is not tested before Pick: an unencodable residue yields a zero Chooser and Pick panics"
+				if len(pc.atoms()) > 0 {
+					st = unknown
+				}
+				break
+			}
+			why = "no return found in the miss branch"
+			for _, r := range returnsOf(opt) {
+				if len(r.Results) != 2 {
+					continue
+				}
+				rp := pathCond(otb, opt.Blocks[0], r.Block())
+				if rp.implies(okAtom, true) {
+					e := otb.T(r.Results[1])
+					if e.Op == "const" && strings.HasPrefix(e.Name, "nil:") {
+						st, why = broken, "an unencodable residue makes Optimize return without an error (at "+c.W.pos(r.Pos())+")"
+					} else {
+						st = holds
 					}
 				}
 			}
 		}
-		c.check(okMiss, "GUARD-MISS", "Pick only on a found chooser; miss returns an error", p.Pos(), "comma-ok lookup; the miss branch returns a non-nil error", "the chooser map is indexed with a caller-controlled residue without a comma-ok test: an unencodable residue (lower case, a letter absent from the table, an amino acid with no usable codon) yields a zero Chooser and Pick panics in rand.Intn(0)")
+		c.judge(st, "GUARD-MISS", "Pick only on a found chooser; miss returns an error", p.Pos(), "comma-ok lookup; the miss branch returns a non-nil error", why)
 	}
 	// GUARD: error values
-	nG := 0
+	seenG := map[string]bool{}
 	for _, r := range returnsOf(opt) {
+		if len(r.Results) != 2 {
+			continue
+		}
 		e := otb.T(r.Results[1])
-		if e.Op == "global" {
-			pc := pathCond(otb, opt.Blocks[0], r.Block()).String()
-			switch {
-			case strings.HasSuffix(e.Name, "errEmtpyCodonTable") && strings.Contains(pc, "field[AminoAcids](param[1])") && strings.Contains(pc, "field[StartCodons](param[1])"):
-				nG++
-				c.ok("GUARD", "empty table -> error", r.Pos(), "returns the package's empty-table error when the table has no start, stop or amino-acid entries")
-			case strings.HasSuffix(e.Name, "errEmtpyAminoAcidString") && strings.Contains(pc, "binop[==](call[builtin:len](param[0]), const[0])"):
-				nG++
+		if e.Op != "global" {
+			continue
+		}
+		pc := pathCond(otb, opt.Blocks[0], r.Block())
+		pcs := pc.String()
+		switch {
+		case strings.HasSuffix(e.Name, "errEmtpyCodonTable") && strings.Contains(pcs, "field[AminoAcids](param[1])"):
+			if !seenG["t"] {
+				seenG["t"] = true
+				c.ok("GUARD", "empty table -> error", r.Pos(), "returns the package's empty-table error when the table has no entries")
+			}
+		case strings.HasSuffix(e.Name, "errEmtpyAminoAcidString") && (pc.implies("binop[==](call[builtin:len](param[0]), const[0])", false) || pc.implies(`binop[==](const[""], param[0])`, false)):
+			if !seenG["p"] {
+				seenG["p"] = true
 				c.ok("GUARD", "empty protein -> error", r.Pos(), "returns the package's empty-protein error for \"\"")
 			}
 		}
 	}
-	if nG != 2 {
-		c.bad("GUARD", "input guards", opt.Pos(), fmt.Sprintf("%d of the 2 input guards (empty table, empty protein) found", nG))
+	if !seenG["t"] {
+		c.undecided("GUARD", "empty table -> error", opt.Pos(), "no return of the package's empty-table error under a test of the table's lists found")
+	}
+	if !seenG["p"] {
+		c.undecided("GUARD", "empty protein -> error", opt.Pos(), "no return of the package's empty-protein error under a test for the empty string found")
 	}
 	// SEED
 	for _, s := range callsIn(opt, "math/rand.Seed") {
@@ -208,65 +450,76 @@ func ruleC07(c *Ctx) {
 		fine := a.contains(func(x *Term) bool { return x.isCall("(time.Time).UnixNano") }) && !a.contains(func(x *Term) bool { return x.isBin("/") || x.isBin(">>") })
 		c.check(fine, "GUARD", "SEED: nanosecond clock", s.Pos(), "rand.Seed(time.Now().UnixNano())", "the global source is re-seeded from "+short(a.String())+": calls within the same clock tick replay one random stream, so pooled draws are not proportional to the weights")
 	}
-	// ---- TABLE-ALPHABET
+}
+
+func checkProteinAlphabet(c *Ctx) {
+	w := c.W
 	ps := w.fn("random", "ProteinSequence")
 	if ps == nil {
 		c.missing("TABLE-ALPHABET", "random.ProteinSequence", "random.ProteinSequence")
 		return
 	}
 	c.useFn(ps)
-	ptb := newTB(ps)
-	var alpha []string
+	alphaSet := map[string]bool{}
 	var fixed []rune
-	eachInstr(ps, func(i ssa.Instruction) {
-		if st, ok := i.(*ssa.Store); ok {
+	for _, f := range family(ps) {
+		c.useFn(f)
+		ptb := newTB(f)
+		eachInstr(f, func(i ssa.Instruction) {
+			st, ok := i.(*ssa.Store)
+			if !ok {
+				return
+			}
 			v := ptb.T(st.Val)
 			if v.Op == "index" || v.Op == "zip" || v.Op == "each" {
-				x := v.Args[0]
-				if x.Op == "conv" {
-					if s, ok := x.Args[0].constStr(); ok {
-						alpha = append(alpha, s)
-					}
+				x := stripConv(v.Args[0])
+				if g := globalInitTerm(x); g != nil {
+					x = stripConv(g)
+				}
+				if s, ok := x.constStr(); ok {
+					alphaSet[s] = true
 				}
 			}
-			if k, ok := v.constInt(); ok && tname(st.Val.Type()) == "rune" {
+			tn := tname(st.Val.Type())
+			if k, ok := v.constInt(); ok && (tn == "rune" || tn == "byte" || tn == "int32" || tn == "uint8") {
 				fixed = append(fixed, rune(k))
 			}
-		}
-	})
-	if len(alpha) != 1 {
-		c.bad("TABLE-ALPHABET", "generator alphabet", ps.Pos(), fmt.Sprintf("found %d constant alphabets indexed by the generator, want 1 (unrecognised shape)", len(alpha)))
+		})
+	}
+	if len(alphaSet) != 1 {
+		c.undecided("TABLE-ALPHABET", "generator alphabet", ps.Pos(), fmt.Sprintf("found %d constant alphabets indexed by the generator, the model needs 1", len(alphaSet)))
 		return
 	}
+	alpha := ""
+	for s := range alphaSet {
+		alpha = s
+	}
 	var badL []string
-	for _, r := range alpha[0] {
+	for _, r := range alpha {
 		if !strings.ContainsRune(aa20, r) {
 			badL = append(badL, string(r))
 		}
 	}
-	var missing []string
-	for _, r := range aa20 {
-		if !strings.ContainsRune(alpha[0], r) {
-			missing = append(missing, string(r))
-		}
-	}
-	okFixed := true
 	for _, r := range fixed {
 		if r != 'M' && r != '*' {
-			okFixed = false
+			badL = append(badL, "fixed letter "+string(r))
 		}
 	}
 	// every default table encodes all 20 amino acids (checked against the tables read for C06)
 	dt := readDefaultTables(c)
-	all20 := dt != nil
+	var lacking []string
 	if dt != nil {
 		for _, id := range dt.ids {
 			for _, r := range aa20 {
 				if !strings.ContainsRune(dt.aas[id], r) {
-					all20 = false
+					lacking = append(lacking, fmt.Sprintf("table %d lacks %c", id, r))
 				}
 			}
 		}
 	}
-	c.check(len(badL) == 0 && len(missing) == 0 && okFixed && all20, "TABLE-ALPHABET", "random protein alphabet = the 20 encodable amino acids", ps.Pos(), fmt.Sprintf("alphabet %q, fixed letters %q", alpha[0], string(fixed)), fmt.Sprintf("alphabet %q: letters no table can encode %v, amino acids never generated %v (fixed letters %q; every default table has all 20: %v)", alpha[0], badL, missing, string(fixed), all20))
+	if dt == nil {
+		c.undecided("TABLE-ALPHABET", "random protein alphabet within the 20 encodable amino acids", ps.Pos(), "default tables not readable")
+		return
+	}
+	c.check(len(badL) == 0 && len(lacking) == 0, "TABLE-ALPHABET", "random protein alphabet within the 20 encodable amino acids", ps.Pos(), fmt.Sprintf("alphabet %q, fixed letters %q", alpha, string(fixed)), fmt.Sprintf("alphabet %q: letters no table can encode %v; %v", alpha, badL, lacking))
 }
